@@ -1,10 +1,34 @@
 import Driver.Common
 import Driver.Loc
+import Driver.Binops
+import Driver.Binser
+import Driver.Parsers
+import Driver.Text
+import Driver.Lz
+import Driver.Fs
+import Driver.Pack
+import Driver.Arc
+import Driver.Aset
+import Driver.Asset
+import Driver.Pixel
+import Driver.Texc
 
 open Driver
 
 def familyOf : String → Option Family
   | "loc" => some Loc.family
+  | "binops" => some Binops.family
+  | "binser" => some Binser.family
+  | "parsers" => some Parsers.family
+  | "text" => some Text.family
+  | "lz" => some Lz.family
+  | "fs" => some Fs.family
+  | "pack" => some Pack.family
+  | "arc" => some Arc.family
+  | "aset" => some Aset.family
+  | "asset" => some Asset.family
+  | "pixel" => some Pixel.family
+  | "texc" => some Texc.family
   | _ => none
 
 /-- `mila_model <family> <cases.txt> <impl.out> <model.out> <oracle.out>` -/
